@@ -437,6 +437,21 @@ pub fn cases(tier: Tier) -> Vec<Case> {
             out.push(Case::Tree { n: 6, edges, all_orders: false, mags: false });
         }
     }
+    // bushy and deep shapes on 10..13 currencies in both tiers: star, double star, chain, caterpillar, binary tree
+    for n in 10..=13usize {
+        let m = n - 1;
+        let h = n / 2;
+        let shapes: Vec<Vec<(usize, usize)>> = vec![
+            (1..n).map(|i| (0, i)).collect(),
+            (1..n).map(|i| if i < h { (0, i) } else if i == h { (0, h) } else { (h, i) }).collect(),
+            (0..m).map(|i| (i, i + 1)).collect(),
+            (0..m).map(|i| if i < m / 2 { (i, i + 1) } else { (i - m / 2, i + 1) }).collect(),
+            (1..n).map(|i| ((i - 1) / 2, i)).collect(),
+        ];
+        for edges in shapes {
+            shape_markets(n, &edges, &mut out);
+        }
+    }
     let nshape = tier.pick(9, 12);
     for n in 7..=nshape {
         for edges in free_trees(n) {
@@ -510,7 +525,7 @@ pub fn run(ctx: &Ctx, replay_file: Option<String>) -> ! {
          quoted pair x every ordering of the quote list x every base (None and each currency), quotes = distinct small \
          primes so that every path product is a distinct exact rational; again with a magnitude table (7.8e-4 .. \
          15234.5); n = 6 (quick): all labelled trees and orientations with two orderings. (2) n = 7..9 (12): every \
-         free-tree SHAPE x a menu of orderings (as listed, reversed, BFS, reversed BFS, leaves first/last, interleaved, \
+         free-tree SHAPE (and, in both tiers, star / double star / chain / caterpillar / binary tree on 10..13 currencies) x a menu of orderings (as listed, reversed, BFS, reversed BFS, leaves first/last, interleaved, \
          all rotations) x 4 orientation patterns x every base. Oracle: all n^2 rates present, quoted pairs bit-exact, \
          diagonal exactly 1, r(a,b)*r(b,a)=1 and r(a,b) = exact path product to 1e-12 - which also makes the result \
          independent of ordering and base. (3) rejection: every quote sequence of length <= 4 over all ordered pairs of \
